@@ -677,3 +677,511 @@ Proof.
   - discriminate.
 Qed.
 End Translate.
+
+(* ================================================================ evaluation of the numbered tree (C21's evaluate) *)
+Lemma number_snd e : forall n, snd (number e n) = s_leaves e.
+Proof.
+  induction e as [a IH|a IHa b IHb|a IHa b IHb|l]; intro n; cbn [number s_leaves].
+  - specialize (IH n). destruct (number a n) as [ia la]. exact IH.
+  - specialize (IHa n). destruct (number a n) as [ia la]. cbn [snd] in IHa. subst la.
+    specialize (IHb (n + llen (s_leaves a))). destruct (number b (n + llen (s_leaves a))) as [ib lb]. cbn [snd] in *. subst lb. reflexivity.
+  - specialize (IHa n). destruct (number a n) as [ia la]. cbn [snd] in IHa. subst la.
+    specialize (IHb (n + llen (s_leaves a))). destruct (number b (n + llen (s_leaves a))) as [ib lb]. cbn [snd] in *. subst lb. reflexivity.
+  - reflexivity.
+Qed.
+
+Section Eval.
+Variable search : leaf -> outcome search_result.
+Variable ltruth : leaf -> N -> bool.     (* the rows (by id) each leaf is really true for *)
+
+Fixpoint struth_id (e : sidx) : N -> bool :=
+  match e with
+  | SNot a => fun x => negb (struth_id a x)
+  | SAnd a b => fun x => struth_id a x && struth_id b x
+  | SOr a b => fun x => struth_id a x || struth_id b x
+  | SQuery l => ltruth l
+  end.
+
+Definition leaf_answers (l : leaf) : Prop :=
+  exists s, search l = Ok s /\ tm_wf (leaf_map s) /\ leaf_sound s (ltruth l).
+
+Lemma number_eval e : forall n tbl,
+  (forall i l, nth_error (s_leaves e) i = Some l -> nth_error tbl (N.to_nat n + i) = Some l) ->
+  (forall l, In l (s_leaves e) -> leaf_answers l) ->
+  exists res, evaluate (load_tbl search tbl) (fst (number e n)) = Ok res /\ sound res (struth_id e) /\ result_wf res.
+Proof.
+  induction e as [a IH|a IHa b IHb|a IHa b IHb|l]; intros n tbl Hnth Hl; cbn [number s_leaves struth_id] in *.
+  - destruct (IH n tbl Hnth Hl) as [res [Er [Hs Hw]]]. destruct (number a n) as [ia la]. cbn [fst evaluate] in *. rewrite Er.
+    eexists. split; [reflexivity|]. apply combine_not_sound; assumption.
+  - pose proof (number_snd a n) as Ea. destruct (number a n) as [ia la] eqn:Na. cbn [snd] in Ea. subst la.
+    destruct (IHa n tbl) as [ra [Era [Hsa Hwa]]].
+    { intros i l Hi. apply Hnth. rewrite nth_error_app1; [exact Hi|]. apply nth_error_Some. congruence. }
+    { intros l Hi. apply Hl. apply in_or_app. left. exact Hi. }
+    rewrite Na in Era. cbn [fst] in Era.
+    destruct (IHb (n + llen (s_leaves a)) tbl) as [rb [Erb [Hsb Hwb]]].
+    { intros i l Hi. unfold llen. rewrite N2Nat.inj_add, Nat2N.id, <- Nat.add_assoc. apply Hnth.
+      rewrite nth_error_app2 by lia. replace (length (s_leaves a) + i - length (s_leaves a))%nat with i by lia. exact Hi. }
+    { intros l Hi. apply Hl. apply in_or_app. right. exact Hi. }
+    destruct (number b (n + llen (s_leaves a))) as [ib lb]. cbn [fst evaluate] in *. rewrite Era, Erb.
+    eexists. split; [reflexivity|]. apply combine_and_sound; assumption.
+  - pose proof (number_snd a n) as Ea. destruct (number a n) as [ia la] eqn:Na. cbn [snd] in Ea. subst la.
+    destruct (IHa n tbl) as [ra [Era [Hsa Hwa]]].
+    { intros i l Hi. apply Hnth. rewrite nth_error_app1; [exact Hi|]. apply nth_error_Some. congruence. }
+    { intros l Hi. apply Hl. apply in_or_app. left. exact Hi. }
+    rewrite Na in Era. cbn [fst] in Era.
+    destruct (IHb (n + llen (s_leaves a)) tbl) as [rb [Erb [Hsb Hwb]]].
+    { intros i l Hi. unfold llen. rewrite N2Nat.inj_add, Nat2N.id, <- Nat.add_assoc. apply Hnth.
+      rewrite nth_error_app2 by lia. replace (length (s_leaves a) + i - length (s_leaves a))%nat with i by lia. exact Hi. }
+    { intros l Hi. apply Hl. apply in_or_app. right. exact Hi. }
+    destruct (number b (n + llen (s_leaves a))) as [ib lb]. cbn [fst evaluate] in *. rewrite Era, Erb.
+    destruct (combine_or_sound ra rb _ _ Hwa Hwb Hsa Hsb) as [res [Er [Hsr Hwr]]]. exists res. split; [exact Er | split; [exact Hsr | exact Hwr]].
+  - cbn [fst evaluate]. unfold load_tbl. specialize (Hnth 0%nat l eq_refl). rewrite Nat.add_0_r in Hnth. rewrite Hnth.
+    destruct (Hl l (or_introl eq_refl)) as [s [Es [Hw Hs]]]. rewrite Es. cbn [omap].
+    eexists. split; [reflexivity|]. apply leaf_result_sound; assumption.
+Qed.
+
+Lemma s_evaluate_sound e : (forall l, In l (s_leaves e) -> leaf_answers l) ->
+  exists res, s_evaluate search e = Ok res /\ sound res (struth_id e) /\ result_wf res.
+Proof.
+  intro Hl. unfold s_evaluate. pose proof (number_snd e 0) as Es.
+  destruct (number_eval e 0 (s_leaves e)) as [res [Er Hr]]; [intros i l Hi; exact Hi | exact Hl |].
+  destruct (number e 0) as [ie tbl]. cbn [snd fst] in *. subst tbl. exists res. split; assumption.
+Qed.
+End Eval.
+
+(* ================================================================ the indexed scan returns the rows of the full scan *)
+Section Main.
+Variable en : env.
+Variable info : index_info.
+Variable search : leaf -> outcome search_result.
+Variable cov : leaf -> list N.
+Variable ltruth : leaf -> N -> bool.
+Variable tbl : list rowT.
+
+(* what a usable index promises for a leaf: it answers (Exact / AtMost / AtLeast, truthfully), and on the
+   live rows of the fragments it covers its notion of truth is the SQL one *)
+Definition leaf_ok (l : leaf) : Prop :=
+  leaf_answers search ltruth l /\
+  forall r, In r tbl -> lmem (rfrag r) (cov l) = true -> ltruth l (rid r) = qmatch en (l_query l) (val r (l_col l)).
+
+Lemma struth_id_row r e : In r tbl ->
+  (forall l, In l (s_leaves e) -> leaf_ok l) -> covered_by cov e (rfrag r) = true ->
+  struth_id ltruth e (rid r) = struth en r e.
+Proof.
+  intros Hr. induction e as [a IH|a IHa b IHb|a IHa b IHb|l]; intros Hl Hc; cbn [struth_id struth s_leaves] in *.
+  - rewrite IH; [reflexivity | exact Hl | exact Hc].
+  - unfold covered_by in *. cbn [s_leaves] in Hc. rewrite forallb_app in Hc. apply andb_true_iff in Hc as [Hca Hcb].
+    rewrite IHa, IHb; [reflexivity | | exact Hcb | | exact Hca]; intros l Hi; apply Hl; apply in_or_app; [right|left]; exact Hi.
+  - unfold covered_by in *. cbn [s_leaves] in Hc. rewrite forallb_app in Hc. apply andb_true_iff in Hc as [Hca Hcb].
+    rewrite IHa, IHb; [reflexivity | | exact Hcb | | exact Hca]; intros l Hi; apply Hl; apply in_or_app; [right|left]; exact Hi.
+  - unfold covered_by in Hc. cbn [s_leaves forallb] in Hc. rewrite andb_true_r in Hc.
+    exact (proj2 (Hl l (or_introl eq_refl)) r Hr Hc).
+Qed.
+
+Theorem index_scan_eq_scan p :
+  parsers_ok info -> fn_definite en ->
+  (forall r, In r tbl -> row_ok info r = true) ->
+  (forall ie sq, apply_scalar_indices info p = Ok ie -> scalar_query ie = Some sq ->
+     forall l, In l (s_leaves sq) -> leaf_ok l) ->
+  Known_C19_not_over_nullable info tbl p = false ->
+  Known_C19_range_bounds_swapped info tbl p = false ->
+  apply_scalar_indices info p <> Err ->
+  index_scan en info search cov tbl p = Ok (full_scan en tbl p).
+Proof.
+  intros Hpar Hfn Hrows Hleaves Hk1 Hk2 Hne. unfold index_scan. unfold apply_scalar_indices in *.
+  destruct (visit_node_sq info p 0) as [Hnp Hsq].
+  destruct (visit_node info p 0) as [[ie|]| |] eqn:Ev; try congruence; [|reflexivity].
+  specialize (Hsq ie eq_refl). unfold has_sq in Hsq. destruct (scalar_query ie) as [sq|] eqn:Esq; [|congruence].
+  specialize (Hleaves ie sq eq_refl Esq).
+  destruct (s_evaluate_sound search ltruth sq) as [res [Er [Hs Hw]]]; [intros l Hl; exact (proj1 (Hleaves l Hl))|].
+  rewrite Er. f_equal. unfold full_scan. f_equal. apply filter_ext_in. intros r Hr.
+  assert (Hk1r : neg_over_null info r p = false).
+  { unfold Known_C19_not_over_nullable in Hk1. destruct (neg_over_null info r p) eqn:E; [|reflexivity].
+    assert (X : existsb (fun r => neg_over_null info r p) tbl = true) by (apply existsb_exists; exists r; split; assumption). congruence. }
+  assert (Hk2r : range_swap_hit info r p = false).
+  { unfold Known_C19_range_bounds_swapped in Hk2. destruct (range_swap_hit info r p) eqn:E; [|reflexivity].
+    assert (X : existsb (fun r => range_swap_hit info r p) tbl = true) by (apply existsb_exists; exists r; split; assumption). congruence. }
+  destruct (visit_node_sound en info Hpar Hfn r (Hrows r Hr) p 0 ie Ev Hk1r Hk2r) as [sq' [Esq' [HA _]]].
+  rewrite Esq in Esq'. injection Esq' as <-.
+  unfold keep_row. destruct (covered_by cov sq (rfrag r)) eqn:Ec; [|reflexivity].
+  pose proof (struth_id_row r sq Hr Hleaves Ec) as Hid.
+  destruct res as [m|m|m]; cbn [sound] in Hs.
+  - rewrite Hs, Hid. symmetry. exact HA.
+  - destruct (is_true (eval en r p)) eqn:Et; [|apply andb_false_r].
+    rewrite andb_true_r. apply Hs. rewrite Hid. symmetry in HA. apply andb_true_iff in HA. tauto.
+  - reflexivity.
+Qed.
+End Main.
+
+(* ================================================================ exact indices: B-tree / bitmap *)
+Lemma tm_from_iter_contains vs x : x < two64 -> Forall (fun v => v < two64) vs ->
+  tm_contains (tm_from_iter vs) x = lmem x vs.
+Proof.
+  intros Hx Hvs. unfold tm_from_iter. rewrite tm_extend_contains, tm_contains_nil. cbn [orb]. unfold lmem.
+  induction Hvs as [|v tl Hv _ IH]; [reflexivity|]. cbn [existsb]. rewrite IH, same_parts_eq by assumption. reflexivity.
+Qed.
+
+(* an index in step with the live rows of the fragments it covers (stale entries of other row ids are allowed) *)
+Definition index_ok (tbl : list rowT) (c : N) (ix : sindex) : Prop :=
+  (forall r, In r tbl -> lmem (rfrag r) (ix_frags ix) = true ->
+     (forall v, In (v, rid r) (ix_entries ix) <-> val r c = Some v) /\
+     (In (rid r) (ix_nulls ix) <-> val r c = None)) /\
+  (forall e, In e (ix_entries ix) -> snd e < two64) /\
+  (forall x, In x (ix_nulls ix) -> x < two64).
+
+(* queries the SargableQueryParser builds *)
+Definition sarg_query_ok (q : query) : bool :=
+  match q with
+  | QRange lo hi => negb (bnd_is_null lo) && negb (bnd_is_null hi) && negb (match lo, hi with BUnb, BUnb => true | _, _ => false end)
+  | QIsIn vs => negb (existsb lit_is_null vs)
+  | QEquals v => negb (lit_is_null v)
+  | QIsNull => true
+  | QFn _ _ => false
+  end.
+
+Lemma lmem_rows_where f ix x : lmem x (rows_where f ix) = existsb (fun e => f (fst e) && (x =? snd e)) (ix_entries ix).
+Proof.
+  unfold rows_where. induction (ix_entries ix) as [|e tl IH]; [reflexivity|]. cbn [filter existsb].
+  destruct (f (fst e)); cbn [map andb orb]; [rewrite lmem_cons, IH; reflexivity | exact IH].
+Qed.
+
+Lemma sarg_search_sound en tbl c ix q : index_ok tbl c ix -> sarg_query_ok q = true ->
+  exists t, sarg_search q ix = Ok (SExact t) /\ tm_wf t /\
+    forall r, In r tbl -> rid r < two64 -> lmem (rfrag r) (ix_frags ix) = true ->
+      tm_contains t (rid r) = qmatch en q (val r c).
+Proof.
+  intros [Hrows [He Hn]] Hq.
+  assert (Hrw : forall f, Forall (fun v => v < two64) (rows_where f ix)).
+  { intro f. unfold rows_where. apply Forall_forall. intros x Hx. apply in_map_iff in Hx as [e [<- Hi]].
+    apply filter_In in Hi as [Hi _]. exact (He e Hi). }
+  assert (Hnl : Forall (fun v => v < two64) (ix_nulls ix)) by (apply Forall_forall; exact Hn).
+  assert (Hval : forall f r, In r tbl -> lmem (rfrag r) (ix_frags ix) = true ->
+            lmem (rid r) (rows_where f ix) = match val r c with Some v => f v | None => false end).
+  { intros f r Hr Hc. destruct (Hrows r Hr Hc) as [Hent Hnul]. rewrite lmem_rows_where.
+    destruct (val r c) as [v|] eqn:Ev.
+    - destruct (f v) eqn:Ef.
+      + apply existsb_exists. exists (v, rid r). split; [apply Hent; reflexivity|]. cbn [fst snd]. rewrite Ef, N.eqb_refl. reflexivity.
+      + apply not_true_is_false. intro H. apply existsb_exists in H as [[v' x] [Hi Hb]]. cbn [fst snd] in Hb.
+        apply andb_true_iff in Hb as [Hf Hx]. apply N.eqb_eq in Hx. subst x. apply Hent in Hi. congruence.
+    - apply not_true_is_false. intro H. apply existsb_exists in H as [[v' x] [Hi Hb]]. cbn [fst snd] in Hb.
+      apply andb_true_iff in Hb as [Hf Hx]. apply N.eqb_eq in Hx. subst x. apply Hent in Hi. congruence. }
+  assert (Hnulls : forall r, In r tbl -> lmem (rfrag r) (ix_frags ix) = true ->
+            lmem (rid r) (ix_nulls ix) = match val r c with Some _ => false | None => true end).
+  { intros r Hr Hc. destruct (Hrows r Hr Hc) as [_ Hnul]. destruct (val r c) as [v|].
+    - apply not_true_is_false. intro H. apply lmem_In in H. apply Hnul in H. discriminate.
+    - apply lmem_In. apply Hnul. reflexivity. }
+  unfold sarg_search.
+  destruct q as [lo hi|vs|v| |f a]; cbn [sarg_query_ok] in Hq; try discriminate.
+  - (* range *)
+    assert (Er : sarg_rows (QRange lo hi) ix = Ok (rows_where (fun x => above lo x && below hi x) ix)).
+    { cbn [sarg_rows]. destruct lo, hi; try reflexivity. discriminate. }
+    rewrite Er. eexists. split; [reflexivity|]. split; [apply tm_extend_wf, tm_wf_nil|].
+    intros r Hr Hid Hc. rewrite tm_from_iter_contains by (try exact Hid; apply Hrw). rewrite (Hval _ r Hr Hc). reflexivity.
+  - (* IN *)
+    apply negb_true_iff in Hq. cbn [sarg_rows]. rewrite Hq, app_nil_r.
+    eexists. split; [reflexivity|]. split; [apply tm_extend_wf, tm_wf_nil|].
+    intros r Hr Hid Hc. rewrite tm_from_iter_contains by (try exact Hid; apply Hrw). rewrite (Hval _ r Hr Hc). reflexivity.
+  - (* equals *)
+    destruct v as [|z]; [discriminate|]. cbn [sarg_rows].
+    eexists. split; [reflexivity|]. split; [apply tm_extend_wf, tm_wf_nil|].
+    intros r Hr Hid Hc. rewrite tm_from_iter_contains by (try exact Hid; apply Hrw). rewrite (Hval _ r Hr Hc).
+    cbn [qmatch lit_eqb_val]. destruct (val r c) as [x|]; [apply Z.eqb_sym | reflexivity].
+  - (* IS NULL *)
+    cbn [sarg_rows]. eexists. split; [reflexivity|]. split; [apply tm_extend_wf, tm_wf_nil|].
+    intros r Hr Hid Hc. rewrite tm_from_iter_contains by assumption. rewrite (Hnulls r Hr Hc).
+    cbn [qmatch]. destruct (val r c); reflexivity.
+Qed.
+
+(* ================================================================ where the leaves come from *)
+Section Leaves.
+Variable info : index_info.
+
+(* a leaf names an index of its column, and for a SargableQueryParser the query is one B-tree / bitmap /
+   zone map can answer (no NULL scalar, not unbounded on both sides) *)
+Definition leaf_src (l : leaf) : Prop :=
+  exists ci pr, info (l_col l) = Some ci /\ In (l_idx l, pr) (ci_parsers ci) /\
+    match pr with
+    | PSargable rc => l_recheck l = rc /\ sarg_query_ok (l_query l) = true
+    | PBloom rc | PText rc => l_recheck l = rc
+    | PLabelList => l_recheck l = false
+    end.
+
+Definition leaves_ok (ie : iexp) : Prop :=
+  forall sq, scalar_query ie = Some sq -> forall l, In l (s_leaves sq) -> leaf_src l.
+
+Lemma leaves_ok_leaf c ci i pr q rc : info c = Some ci -> In (i, pr) (ci_parsers ci) ->
+  match pr with
+  | PSargable rc0 => rc = rc0 /\ sarg_query_ok q = true
+  | PBloom rc0 | PText rc0 => rc = rc0
+  | PLabelList => rc = false
+  end ->
+  leaves_ok (index_query_with_recheck c i q rc).
+Proof.
+  intros Hi Hin Hp sq [= <-] l [<-|[]]. exists ci, pr. cbn [l_col l_idx l_recheck l_query]. repeat split; assumption.
+Qed.
+
+Lemma find_map_leaves {f : N * parser -> option iexp} c ci ie : info c = Some ci ->
+  (forall ip y, In ip (ci_parsers ci) -> f ip = Some y -> leaves_ok y) ->
+  find_map f (ci_parsers ci) = Some ie -> leaves_ok ie.
+Proof. intros Hi H E. destruct (find_map_some _ _ _ E) as [ip [Hin Hp]]. exact (H ip ie Hin Hp). Qed.
+
+Lemma p_visit_between_leaves c ci ip lo hi y : info c = Some ci -> In ip (ci_parsers ci) ->
+  match lo, hi with BUnb, BUnb => False | _, _ => True end ->
+  p_visit_between c ip lo hi = Some y -> leaves_ok y.
+Proof.
+  intros Hi Hin Hb. unfold p_visit_between. destruct ip as [i pr]. cbn [fst snd]. destruct pr as [rc|rc| |rc]; try discriminate.
+  destruct (bnd_is_null lo) eqn:El; [discriminate|]. destruct (bnd_is_null hi) eqn:Eh; [discriminate|]. intros [= <-].
+  eapply leaves_ok_leaf; [exact Hi | exact Hin |]. split; [reflexivity|]. cbn [sarg_query_ok]. rewrite El, Eh.
+  destruct lo, hi; try reflexivity. destruct Hb.
+Qed.
+Lemma p_visit_in_list_leaves c ci ip vs y : info c = Some ci -> In ip (ci_parsers ci) ->
+  p_visit_in_list c ip vs = Some y -> leaves_ok y.
+Proof.
+  intros Hi Hin. unfold p_visit_in_list. destruct ip as [i pr]. cbn [fst snd]. destruct pr as [rc|rc| |rc]; try discriminate.
+  - destruct (existsb lit_is_null vs) eqn:En; [discriminate|]. intros [= <-].
+    eapply leaves_ok_leaf; [exact Hi | exact Hin |]. split; [reflexivity|]. cbn [sarg_query_ok]. rewrite En. reflexivity.
+  - intros [= <-]. eapply leaves_ok_leaf; [exact Hi | exact Hin | reflexivity].
+Qed.
+Lemma p_visit_is_bool_leaves c ci ip b y : info c = Some ci -> In ip (ci_parsers ci) ->
+  p_visit_is_bool c ip b = Some y -> leaves_ok y.
+Proof.
+  intros Hi Hin. unfold p_visit_is_bool. destruct ip as [i pr]. cbn [fst snd]. destruct pr as [rc|rc| |rc]; try discriminate;
+    intros [= <-]; (eapply leaves_ok_leaf; [exact Hi | exact Hin |]); [split; reflexivity | reflexivity].
+Qed.
+Lemma p_visit_is_null_leaves c ci ip y : info c = Some ci -> In ip (ci_parsers ci) ->
+  p_visit_is_null c ip = Some y -> leaves_ok y.
+Proof.
+  intros Hi Hin. unfold p_visit_is_null. destruct ip as [i pr]. cbn [fst snd]. destruct pr as [rc|rc| |rc]; try discriminate;
+    intros [= <-]; (eapply leaves_ok_leaf; [exact Hi | exact Hin |]); [split; reflexivity | reflexivity].
+Qed.
+Lemma p_visit_comparison_leaves c ci ip v op y : info c = Some ci -> In ip (ci_parsers ci) ->
+  p_visit_comparison c ip v op = Some y -> leaves_ok y.
+Proof.
+  intros Hi Hin. unfold p_visit_comparison. destruct ip as [i pr]. cbn [fst snd]. destruct pr as [rc|rc| |rc]; try discriminate.
+  - destruct (lit_is_null v) eqn:En; [discriminate|]. intros [= <-].
+    eapply leaves_ok_leaf; [exact Hi | exact Hin |]. split; [reflexivity|].
+    destruct op; cbn [sarg_query_ok bnd_is_null]; rewrite ?En; reflexivity.
+  - destruct op; try discriminate; intros [= <-]; (eapply leaves_ok_leaf; [exact Hi | exact Hin | reflexivity]).
+Qed.
+Lemma p_visit_scalar_function_leaves c ci ip f arg y : info c = Some ci -> In ip (ci_parsers ci) ->
+  p_visit_scalar_function c ip f arg = Some y -> leaves_ok y.
+Proof.
+  intros Hi Hin. unfold p_visit_scalar_function. destruct ip as [i pr]. cbn [fst snd]. destruct pr as [rc|rc| |rc]; try discriminate;
+    destruct arg as [[|v]|]; try discriminate; destruct f; try discriminate; intros [= <-];
+    (eapply leaves_ok_leaf; [exact Hi | exact Hin | reflexivity]).
+Qed.
+
+Lemma maybe_not_leaves x y : leaves_ok x -> maybe_not x = Ok (Some y) -> leaves_ok y.
+Proof.
+  intros Hx. unfold maybe_not. destruct (scalar_query x) as [sq|] eqn:Es.
+  - destruct (refine_expr x); [discriminate|]. destruct (s_needs_recheck sq); [discriminate|]. intros [= <-].
+    intros sq' [= <-] l Hl. cbn [s_leaves] in Hl. exact (Hx sq Es l Hl).
+  - destruct (refine_expr x); [|discriminate]. intros [= <-] sq' E. discriminate E.
+Qed.
+Lemma negate_if_leaves neg o y : (forall ie, o = Some ie -> leaves_ok ie) -> negate_if neg o = Ok (Some y) -> leaves_ok y.
+Proof.
+  intros H. unfold negate_if. destruct o as [ie|]; [|discriminate]. destruct neg.
+  - apply maybe_not_leaves. apply H. reflexivity.
+  - intros [= <-]. apply H. reflexivity.
+Qed.
+Lemma ie_and_leaves x y : leaves_ok x -> leaves_ok y -> leaves_ok (ie_and x y).
+Proof.
+  intros Hx Hy sq. unfold ie_and. cbn [scalar_query].
+  destruct (scalar_query x) as [a|] eqn:Ea, (scalar_query y) as [b|] eqn:Eb; cbn [opt_combine]; intros [= <-] l Hl.
+  - cbn [s_leaves] in Hl. apply in_app_or in Hl as [Hl|Hl]; [exact (Hx a Ea l Hl) | exact (Hy b Eb l Hl)].
+  - exact (Hx a Ea l Hl).
+  - exact (Hy b Eb l Hl).
+Qed.
+Lemma ie_refine_leaves x e : leaves_ok x -> leaves_ok (ie_refine x e).
+Proof. intros Hx sq. unfold ie_refine. destruct (refine_expr x); cbn [scalar_query]; apply Hx. Qed.
+Lemma maybe_or_leaves x y z : leaves_ok x -> leaves_ok y -> maybe_or x y = Some z -> leaves_ok z.
+Proof.
+  intros Hx Hy. unfold maybe_or. destruct (scalar_query x) as [a|] eqn:Ea; [|discriminate].
+  destruct (scalar_query y) as [b|] eqn:Eb; [|discriminate].
+  destruct (refine_expr x); [discriminate|]. destruct (refine_expr y); [discriminate|]. intros [= <-] sq [= <-] l Hl.
+  cbn [s_leaves] in Hl. apply in_app_or in Hl as [Hl|Hl]; [exact (Hx a Ea l Hl) | exact (Hy b Eb l Hl)].
+Qed.
+
+Lemma maybe_range_leaves a b ie : maybe_range info a b = Some ie -> leaves_ok ie.
+Proof.
+  unfold maybe_range. destruct a as [ | opl ll lr | | | | | | | | | | | ]; try discriminate.
+  destruct b as [ | opr rl rr | | | | | | | | | | | ]; try discriminate.
+  destruct (maybe_indexed_column info ll) as [[lc ci]|] eqn:El; [|discriminate].
+  destruct (maybe_indexed_column_some _ _ _ _ El) as [-> Hi].
+  destruct (maybe_column rl); [|discriminate]. destruct (negb (lc =? n)); [discriminate|].
+  destruct (maybe_scalar lr) as [lv|]; [|discriminate]. destruct (maybe_scalar rr) as [rv|]; [|discriminate].
+  destruct opl, opr; try discriminate; apply (find_map_leaves lc ci ie Hi); intros ip y Hin;
+    apply (p_visit_between_leaves lc ci ip _ _ y Hi Hin); exact I.
+Qed.
+
+Lemma visit_node_leaves e : forall depth ie, visit_node info e depth = Ok (Some ie) -> leaves_ok ie.
+Proof.
+  induction e as [c|op l rt|neg t lo hi|neg t items|t|t|x IH|x IH|x IH|a IHa b IHb|a IHa b IHb|f t arg|k];
+    intros depth ie; rewrite visit_node_unfold; (destruct (MAX_DEPTH <=? depth); [discriminate|]).
+  - intros [= E]. unfold visit_column in E. destruct (info c) as [ci|] eqn:Hi; [|discriminate].
+    destruct (ci_bool ci); [|discriminate]. apply (find_map_leaves c ci ie Hi) in E; [exact E|].
+    intros ip y Hin. apply (p_visit_is_bool_leaves c ci ip true y Hi Hin).
+  - assert (Hc : forall o ie0, visit_comparison info o l rt = Some ie0 -> leaves_ok ie0).
+    { intros o ie0. unfold visit_comparison. destruct (maybe_indexed_column info l) as [[c ci]|] eqn:El; [|discriminate].
+      destruct (maybe_indexed_column_some _ _ _ _ El) as [-> Hi]. destruct (maybe_scalar rt) as [v|]; [|discriminate].
+      apply (find_map_leaves c ci ie0 Hi). intros ip y Hin. apply (p_visit_comparison_leaves c ci ip v o y Hi Hin). }
+    destruct op; try (intros [= E]; exact (Hc _ _ E)). apply negate_if_leaves. apply Hc.
+  - unfold visit_between. destruct (maybe_indexed_column info t) as [[c ci]|] eqn:Et; [|discriminate].
+    destruct (maybe_indexed_column_some _ _ _ _ Et) as [-> Hi].
+    destruct (maybe_scalar lo) as [lv|]; [|discriminate]. destruct (maybe_scalar hi) as [hv|]; [|discriminate].
+    apply negate_if_leaves. intros ie0. apply (find_map_leaves c ci ie0 Hi). intros ip y Hin.
+    apply (p_visit_between_leaves c ci ip _ _ y Hi Hin). exact I.
+  - unfold visit_in_list. destruct (maybe_indexed_column info t) as [[c ci]|] eqn:Et; [|discriminate].
+    destruct (maybe_indexed_column_some _ _ _ _ Et) as [-> Hi]. destruct (maybe_scalar_list items) as [vs|]; [|discriminate].
+    apply negate_if_leaves. intros ie0. apply (find_map_leaves c ci ie0 Hi). intros ip y Hin.
+    apply (p_visit_in_list_leaves c ci ip vs y Hi Hin).
+  - unfold visit_is_null. destruct (maybe_indexed_column info t) as [[c ci]|] eqn:Et; [|discriminate].
+    destruct (maybe_indexed_column_some _ _ _ _ Et) as [-> Hi].
+    apply negate_if_leaves. intros ie0. apply (find_map_leaves c ci ie0 Hi). intros ip y Hin.
+    apply (p_visit_is_null_leaves c ci ip y Hi Hin).
+  - unfold visit_is_null. destruct (maybe_indexed_column info t) as [[c ci]|] eqn:Et; [|discriminate].
+    destruct (maybe_indexed_column_some _ _ _ _ Et) as [-> Hi].
+    apply negate_if_leaves. intros ie0. apply (find_map_leaves c ci ie0 Hi). intros ip y Hin.
+    apply (p_visit_is_null_leaves c ci ip y Hi Hin).
+  - intros [= E]. unfold visit_is_bool in E. destruct x as [c| | | | | | | | | | | | ]; try discriminate.
+    destruct (info c) as [ci|] eqn:Hi; [|discriminate]. destruct (ci_bool ci); [|discriminate].
+    apply (find_map_leaves c ci ie Hi) in E; [exact E|]. intros ip y Hin. apply (p_visit_is_bool_leaves c ci ip true y Hi Hin).
+  - intros [= E]. unfold visit_is_bool in E. destruct x as [c| | | | | | | | | | | | ]; try discriminate.
+    destruct (info c) as [ci|] eqn:Hi; [|discriminate]. destruct (ci_bool ci); [|discriminate].
+    apply (find_map_leaves c ci ie Hi) in E; [exact E|]. intros ip y Hin. apply (p_visit_is_bool_leaves c ci ip false y Hi Hin).
+  - destruct (visit_node info x (depth + 1)) as [[node|]| |] eqn:Ex; try discriminate.
+    apply maybe_not_leaves. exact (IH _ _ Ex).
+  - destruct (maybe_range info a b) as [re|] eqn:Er.
+    + intros [= <-]. exact (maybe_range_leaves _ _ _ Er).
+    + destruct (visit_node info a (depth + 1)) as [lft| |] eqn:Ea; try discriminate.
+      destruct (visit_node info b (depth + 1)) as [rgt| |] eqn:Eb; try discriminate.
+      intros [= E]. destruct lft as [l|], rgt as [rg|]; try discriminate; injection E as <-.
+      * apply ie_and_leaves; [exact (IHa _ _ Ea) | exact (IHb _ _ Eb)].
+      * apply ie_refine_leaves. exact (IHa _ _ Ea).
+      * apply ie_refine_leaves. exact (IHb _ _ Eb).
+  - destruct (visit_node info a (depth + 1)) as [lft| |] eqn:Ea; try discriminate.
+    destruct (visit_node info b (depth + 1)) as [rgt| |] eqn:Eb; try discriminate.
+    intros [= E]. destruct lft as [l|], rgt as [rg|]; try discriminate.
+    exact (maybe_or_leaves _ _ _ (IHa _ _ Ea) (IHb _ _ Eb) E).
+  - intros [= E]. unfold visit_scalar_fn in E. destruct (maybe_indexed_column info t) as [[c ci]|] eqn:Et; [|discriminate].
+    destruct (maybe_indexed_column_some _ _ _ _ Et) as [-> Hi].
+    apply (find_map_leaves c ci ie Hi) in E; [exact E|]. intros ip y Hin.
+    apply (p_visit_scalar_function_leaves c ci ip f (maybe_scalar arg) y Hi Hin).
+  - discriminate.
+Qed.
+End Leaves.
+
+(* ================================================================ C19: B-tree / bitmap indices *)
+(* every index of the table is an exact sargable one *)
+Definition exact_info (info : index_info) : Prop :=
+  forall c ci ip, info c = Some ci -> In ip (ci_parsers ci) -> snd ip = PSargable false.
+
+Definition table_ok (info : index_info) (tbl : list rowT) : Prop :=
+  forall r, In r tbl -> row_ok info r = true /\ rid r < two64.
+
+(* every index the planner may pick exists and is in step with the table *)
+Definition indices_ok (info : index_info) (ixs : N -> option sindex) (tbl : list rowT) : Prop :=
+  forall c ci idx pr, info c = Some ci -> In (idx, pr) (ci_parsers ci) ->
+    exists ix, ixs idx = Some ix /\ index_ok tbl c ix.
+
+Lemma exact_info_parsers_ok info : exact_info info -> parsers_ok info.
+Proof. intros H c ci ip Hi Hin. rewrite (H c ci ip Hi Hin). reflexivity. Qed.
+
+Theorem exact_index_scan_eq_scan en info ixs tbl p :
+  exact_info info -> fn_definite en -> table_ok info tbl -> indices_ok info ixs tbl ->
+  Known_C19_not_over_nullable info tbl p = false ->
+  Known_C19_range_bounds_swapped info tbl p = false ->
+  sdepth p < MAX_DEPTH ->
+  index_scan en info (exact_search ixs) (exact_cov ixs) tbl p = Ok (full_scan en tbl p).
+Proof.
+  intros Hex Hfn Htbl Hix Hk1 Hk2 Hd.
+  apply (index_scan_eq_scan en info (exact_search ixs) (exact_cov ixs)
+           (fun l x => match exact_search ixs l with Ok (SExact t) => tm_contains t x | _ => false end)).
+  - exact (exact_info_parsers_ok info Hex).
+  - exact Hfn.
+  - intros r Hr. exact (proj1 (Htbl r Hr)).
+  - intros ie sq Ea Esq l Hl. unfold apply_scalar_indices in Ea.
+    destruct (visit_node info p 0) as [[ie0|]| |] eqn:Ev; try discriminate; injection Ea as <-; [|discriminate].
+    destruct (visit_node_leaves info p 0 ie0 Ev sq Esq l Hl) as [ci [pr [Hi [Hin Hpr]]]].
+    pose proof (Hex _ _ _ Hi Hin) as Epr. cbn [snd] in Epr. subst pr. destruct Hpr as [_ Hq].
+    destruct (Hix _ _ _ _ Hi Hin) as [ix [Eix Hok]].
+    destruct (sarg_search_sound en tbl (l_col l) ix (l_query l) Hok Hq) as [t [Es [Hw Hrows]]].
+    unfold leaf_ok, leaf_answers, exact_search, exact_cov. rewrite Eix, Es. split.
+    + exists (SExact t). split; [reflexivity|]. split; [exact Hw|]. cbn [leaf_sound]. reflexivity.
+    + intros r Hr Hc. apply Hrows; [exact Hr | exact (proj2 (Htbl r Hr)) | exact Hc].
+  - exact Hk1.
+  - exact Hk2.
+  - unfold apply_scalar_indices. pose proof (visit_node_no_err info p 0) as Hne.
+    destruct (visit_node info p 0) as [[ie0|]| |]; try discriminate. exfalso. apply Hne; [|reflexivity]. exact Hd.
+Qed.
+
+(* ---- the two sub-domains named in the design *)
+Lemma nulls3_pcols info r e : nulls3 info r e = true ->
+  exists c, In c (pcols e) /\ info c <> None /\ val r c = None.
+Proof.
+  assert (Ht : forall t, col_null_indexed info r t = true -> exists c, In c (tcols t) /\ info c <> None /\ val r c = None).
+  { intros [c|l|k]; cbn [col_null_indexed tcols]; try discriminate. destruct (info c) eqn:Hi; [|discriminate].
+    destruct (val r c) eqn:Hv; [discriminate|]. intros _. exists c. split; [left; reflexivity|]. split; [congruence | exact Hv]. }
+  induction e as [c|op l rt|neg t lo hi|neg t items|t|t|x IH|x IH|x IH|a IHa b IHb|a IHa b IHb|f t arg|k];
+    cbn [nulls3 pcols]; try discriminate; try (apply Ht); try assumption.
+  - intro H. apply orb_true_iff in H as [H|H]; [destruct (IHa H) as [c [Hc Hr]] | destruct (IHb H) as [c [Hc Hr]]];
+      exists c; (split; [apply in_or_app; tauto | exact Hr]).
+  - intro H. apply orb_true_iff in H as [H|H]; [destruct (IHa H) as [c [Hc Hr]] | destruct (IHb H) as [c [Hc Hr]]];
+      exists c; (split; [apply in_or_app; tauto | exact Hr]).
+Qed.
+
+Lemma null_free_not_known info tbl p : null_free info tbl p = true -> Known_C19_not_over_nullable info tbl p = false.
+Proof.
+  intro H. unfold Known_C19_not_over_nullable. apply not_true_is_false. intro E.
+  apply existsb_exists in E as [r [Hr Hn]]. apply (neg_over_null_nulls3 info) in Hn.
+  destruct (nulls3_pcols info r p Hn) as [c [Hc [Hi Hv]]].
+  unfold null_free in H. rewrite forallb_forall in H. specialize (H r Hr). rewrite forallb_forall in H. specialize (H c Hc).
+  rewrite Hv in H. destruct (info c); [discriminate | congruence].
+Qed.
+
+Lemma negation_free_row info r e : negation_free e = true -> neg_over_null info r e = false.
+Proof.
+  induction e as [c|op l rt|neg t lo hi|neg t items|t|t|x IH|x IH|x IH|a IHa b IHb|a IHa b IHb|f t arg|k];
+    cbn [negation_free neg_over_null]; try reflexivity; try discriminate.
+  - destruct op; try reflexivity; discriminate.
+  - destruct neg; [discriminate | reflexivity].
+  - destruct neg; [discriminate | reflexivity].
+  - intro H. apply andb_true_iff in H as [Ha Hb]. rewrite (IHa Ha), (IHb Hb). reflexivity.
+  - intro H. apply andb_true_iff in H as [Ha Hb]. rewrite (IHa Ha), (IHb Hb). reflexivity.
+Qed.
+
+Lemma negation_free_not_known info tbl p : negation_free p = true -> Known_C19_not_over_nullable info tbl p = false.
+Proof.
+  intro H. unfold Known_C19_not_over_nullable. apply not_true_is_false. intro E.
+  apply existsb_exists in E as [r [_ Hn]]. rewrite (negation_free_row info r p H) in Hn. discriminate.
+Qed.
+
+(* build_index produces an index in step with the table *)
+Lemma build_index_ok tbl c frags : NoDup (map rid tbl) -> (forall r, In r tbl -> rid r < two64) ->
+  index_ok tbl c (build_index c frags tbl).
+Proof.
+  intros Hnd Hlt. unfold index_ok, build_index. cbn [ix_frags ix_entries ix_nulls].
+  assert (Huniq : forall r r', In r tbl -> In r' tbl -> rid r = rid r' -> r = r').
+  { clear Hlt. induction tbl as [|a tl IH]; intros r r' Hr Hr' E; [destruct Hr|].
+    cbn [map] in Hnd. inversion Hnd as [|? ? Hnot Hnd']; subst.
+    destruct Hr as [<-|Hr], Hr' as [<-|Hr']; try reflexivity.
+    - exfalso. apply Hnot. rewrite E. apply in_map. exact Hr'.
+    - exfalso. apply Hnot. rewrite <- E. apply in_map. exact Hr.
+    - exact (IH Hnd' r r' Hr Hr' E). }
+  split; [|split].
+  - intros r Hr Hc. split.
+    + intro v. rewrite in_flat_map. split.
+      * intros [r' [Hr' Hin]]. apply filter_In in Hr' as [Hr' _].
+        destruct (val r' c) as [v'|] eqn:Ev'; [|destruct Hin]. destruct Hin as [[= <- E]|[]].
+        rewrite <- (Huniq r' r Hr' Hr E). exact Ev'.
+      * intro Ev. exists r. split; [apply filter_In; split; assumption|]. rewrite Ev. left. reflexivity.
+    + rewrite in_flat_map. split.
+      * intros [r' [Hr' Hin]]. apply filter_In in Hr' as [Hr' _].
+        destruct (val r' c) as [v'|] eqn:Ev'; [destruct Hin|]. destruct Hin as [E|[]].
+        rewrite <- (Huniq r' r Hr' Hr E). exact Ev'.
+      * intro Ev. exists r. split; [apply filter_In; split; assumption|]. rewrite Ev. left. reflexivity.
+  - intros e He. apply in_flat_map in He as [r [Hr Hin]]. apply filter_In in Hr as [Hr _].
+    destruct (val r c); [|destruct Hin]. destruct Hin as [<-|[]]. exact (Hlt r Hr).
+  - intros x Hx. apply in_flat_map in Hx as [r [Hr Hin]]. apply filter_In in Hr as [Hr _].
+    destruct (val r c); [destruct Hin|]. destruct Hin as [<-|[]]. exact (Hlt r Hr).
+Qed.
